@@ -1,7 +1,293 @@
-(* Lemmas about the packet codec model (Protocol.v). *)
+(* Lemmas about the packet codec model (Protocol.v): every well-formed packet
+   decodes to itself. *)
 From V Require Import Common.Base C20.Protocol.
 
 Lemma read32_le32 : forall n r, read32 (le32 n ++ r) = Some (n mod 4294967296, r).
 Proof.
   intros n r. unfold le32, read32. cbn [app]. f_equal. f_equal. lia.
+Qed.
+
+Lemma read32_le32_small : forall n r, 0 <= n < 4294967296 -> read32 (le32 n ++ r) = Some (n, r).
+Proof. intros n r H. rewrite read32_le32. rewrite Z.mod_small; auto. Qed.
+
+Lemma zlen_nonneg : forall A (l : list A), 0 <= zlen l.
+Proof. intros. unfold zlen. lia. Qed.
+
+Lemma zlen_app : forall A (a b : list A), zlen (a ++ b) = zlen a + zlen b.
+Proof. intros. unfold zlen. rewrite app_length. lia. Qed.
+
+Lemma readLP_app : forall s rest, zlen s < 4294967296 ->
+  readLP (le32 (zlen s) ++ s ++ rest) = Some (s, rest).
+Proof.
+  intros s rest H. unfold readLP.
+  rewrite read32_le32_small by (pose proof (zlen_nonneg _ s); lia).
+  rewrite zlen_app.
+  assert (E : zlen s <=? zlen s + zlen rest = true).
+  { apply Z.leb_le. pose proof (zlen_nonneg _ rest). lia. }
+  rewrite E. unfold zlen. rewrite Nat2Z.id.
+  rewrite firstn_app, Nat.sub_diag, firstn_all. simpl. rewrite app_nil_r.
+  rewrite skipn_app, Nat.sub_diag, skipn_all. simpl. reflexivity.
+Qed.
+
+(* ---- induction principle for the nested type ---- *)
+Section ValueInd.
+  Variable P : value -> Prop.
+  Hypothesis Hnull : P VNull.
+  Hypothesis Hbool : forall b, P (VBool b).
+  Hypothesis Hint : forall n, P (VInt n).
+  Hypothesis Hstr : forall s, P (VStr s).
+  Hypothesis Hbytes : forall s, P (VBytes s).
+  Hypothesis Harr : forall l, Forall P l -> P (VArr l).
+  Hypothesis Hmap : forall m, Forall (fun kv => P (snd kv)) m -> P (VMap m).
+
+  Fixpoint value_ind' (v : value) : P v :=
+    match v with
+    | VNull => Hnull
+    | VBool b => Hbool b
+    | VInt n => Hint n
+    | VStr s => Hstr s
+    | VBytes s => Hbytes s
+    | VArr l =>
+        Harr l ((fix go (l : list value) : Forall P l :=
+                   match l with
+                   | [] => Forall_nil _
+                   | x :: r => Forall_cons _ (value_ind' x) (go r)
+                   end) l)
+    | VMap m =>
+        Hmap m ((fix go (m : list (bytes * value)) : Forall (fun kv => P (snd kv)) m :=
+                   match m with
+                   | [] => Forall_nil _
+                   | kv :: r => Forall_cons _ (value_ind' (snd kv)) (go r)
+                   end) m)
+    end.
+End ValueInd.
+
+(* nesting depth *)
+Fixpoint depth (v : value) : nat :=
+  match v with
+  | VArr l => S (fold_right (fun x acc => Nat.max (depth x) acc) O l)
+  | VMap m => S (fold_right (fun kv acc => Nat.max (depth (snd kv)) acc) O m)
+  | _ => 1%nat
+  end.
+
+(* ---- order on keys ---- *)
+Lemma bytes_ltb_asym : forall a b, bytes_ltb a b = true -> bytes_ltb b a = false.
+Proof.
+  induction a as [|x a IH]; intros [|y b] H; simpl in *; try discriminate; auto.
+  destruct (x <? y) eqn:E1.
+  - assert (E2 : y <? x = false) by lia. rewrite E2.
+    destruct (x <? y); [reflexivity|discriminate].
+  - destruct (y <? x) eqn:E2; [discriminate|]. auto.
+Qed.
+
+Lemma ins_entry_head : forall B (e : bytes * B) l,
+  forallb (fun e' => bytes_ltb (fst e) (fst e')) l = true -> ins_entry e l = e :: l.
+Proof.
+  intros B e [|h t] H; simpl in *; auto.
+  apply andb_true_iff in H as [H1 _]. rewrite H1. reflexivity.
+Qed.
+
+Lemma sort_entries_sorted : forall B (l : list (bytes * B)), ssorted l = true -> sort_entries l = l.
+Proof.
+  induction l as [|e r IH]; simpl; intros H; auto.
+  apply andb_true_iff in H as [H1 H2]. rewrite (IH H2). apply ins_entry_head; auto.
+Qed.
+
+Lemma ssorted_map : forall (m : list (bytes * value)),
+  ssorted (map (fun kv : bytes * value => (fst kv, enc (snd kv))) m) = ssorted m.
+Proof.
+  induction m as [|e r IH]; simpl; auto. rewrite IH. f_equal.
+  clear. induction r as [|x r IH]; simpl; auto. rewrite IH. reflexivity.
+Qed.
+
+Lemma map_insert_last : forall k v acc,
+  forallb (fun e => bytes_ltb (fst e) k) acc = true -> map_insert k v acc = acc ++ [(k, v)].
+Proof.
+  induction acc as [|[k' v'] r IH]; simpl; intros H; auto.
+  apply andb_true_iff in H as [H1 H2]. simpl in H1.
+  rewrite (bytes_ltb_asym _ _ H1), H1, (IH H2). reflexivity.
+Qed.
+
+(* ---- the decoder inverts the encoder ---- *)
+Lemma enc_length_pos : forall v, (1 <= length (enc v))%nat.
+Proof. destruct v; simpl; lia. Qed.
+
+Lemma flat_map_enc_length : forall l, (length l <= length (flat_map enc l))%nat.
+Proof.
+  induction l as [|x r IH]; simpl; auto. rewrite app_length. pose proof (enc_length_pos x). lia.
+Qed.
+
+Definition dec_ok_at (f : nat) (x : value) : Prop :=
+  forall rest, dec f (enc x ++ rest) = DOk (x, rest).
+
+Lemma dec_items_ok : forall f l k acc rest,
+  Forall (dec_ok_at f) l -> (length l < k)%nat ->
+  dec_items (dec f) k (zlen l) (flat_map enc l ++ rest) acc = DOk (VArr (rev acc ++ l), rest).
+Proof.
+  induction l as [|x r IH]; intros k acc rest HF Hk.
+  - destruct k; simpl; rewrite app_nil_r; reflexivity.
+  - inversion HF as [|? ? Hx Hr]; subst.
+    destruct k as [|k]; [simpl in Hk; lia|].
+    cbn [dec_items].
+    assert (E : zlen (x :: r) <=? 0 = false).
+    { apply Z.leb_gt. unfold zlen. simpl length. lia. }
+    rewrite E. cbn [flat_map]. rewrite <- app_assoc. rewrite (Hx (flat_map enc r ++ rest)).
+    assert (E2 : zlen (x :: r) - 1 = zlen r) by (unfold zlen; simpl length; lia).
+    rewrite E2. rewrite IH; auto; [|simpl in Hk; lia].
+    simpl. rewrite <- app_assoc. reflexivity.
+Qed.
+
+Definition entry_bytes (kv : bytes * value) : bytes := le32 (zlen (fst kv)) ++ fst kv ++ enc (snd kv).
+
+Lemma dec_entries_ok : forall f m k acc rest,
+  Forall (fun kv => dec_ok_at f (snd kv)) m ->
+  forallb (fun kv : bytes * value => zlen (fst kv) <? 4294967296) m = true ->
+  ssorted m = true ->
+  forallb (fun e => forallb (fun e' => bytes_ltb (fst e) (fst e')) m) acc = true ->
+  (length m < k)%nat ->
+  dec_entries (dec f) k (zlen m) (flat_map entry_bytes m ++ rest) acc = DOk (VMap (acc ++ m), rest).
+Proof.
+  induction m as [|[key v] r IH]; intros k acc rest HF HL HS HA Hk.
+  - destruct k; simpl; rewrite app_nil_r; reflexivity.
+  - inversion HF as [|? ? Hx Hr]; subst. simpl in Hx.
+    simpl in HL. apply andb_true_iff in HL as [HL1 HL2].
+    simpl in HS. apply andb_true_iff in HS as [HS1 HS2].
+    destruct k as [|k]; [simpl in Hk; lia|].
+    cbn [dec_entries].
+    assert (E : zlen ((key, v) :: r) <=? 0 = false).
+    { apply Z.leb_gt. unfold zlen. simpl length. lia. }
+    rewrite E. cbn [flat_map]. unfold entry_bytes at 1. cbn [fst snd].
+    rewrite <- !app_assoc. rewrite readLP_app by lia.
+    rewrite (Hx (flat_map entry_bytes r ++ rest)).
+    assert (E2 : zlen ((key, v) :: r) - 1 = zlen r) by (unfold zlen; simpl length; lia).
+    rewrite E2.
+    assert (HI : map_insert key v acc = acc ++ [(key, v)]).
+    { apply map_insert_last. rewrite forallb_forall in HA |- *. intros e He.
+      specialize (HA e He). simpl in HA. apply andb_true_iff in HA as [HA1 _]. exact HA1. }
+    rewrite HI. rewrite IH; auto; [| |simpl in Hk; lia].
+    + rewrite <- app_assoc. reflexivity.
+    + rewrite forallb_app. apply andb_true_iff. split.
+      * rewrite forallb_forall in HA |- *. intros e He. specialize (HA e He). simpl in HA.
+        apply andb_true_iff in HA as [_ HA2]. exact HA2.
+      * simpl. rewrite HS1. reflexivity.
+Qed.
+
+Lemma wf_map_parts : forall m, wf (VMap m) = true ->
+  forallb (fun kv : bytes * value => zlen (fst kv) <? 4294967296) m = true /\
+  Forall (fun kv => wf (snd kv) = true) m /\ ssorted m = true /\ 0 <= zlen m < 4294967296.
+Proof.
+  intros m H. simpl in H. apply andb_true_iff in H as [H H3]. apply andb_true_iff in H as [H1 H2].
+  repeat split; auto.
+  - rewrite forallb_forall in H1 |- *. intros kv Hkv. specialize (H1 kv Hkv).
+    apply andb_true_iff in H1 as [B _]. unfold bytes_ok in B. apply andb_true_iff in B as [_ B]. exact B.
+  - apply Forall_forall. intros kv Hkv. rewrite forallb_forall in H1. specialize (H1 kv Hkv).
+    apply andb_true_iff in H1 as [_ W]. exact W.
+  - apply zlen_nonneg.
+  - lia.
+Qed.
+
+Lemma depth_fold_le : forall (l : list value) x, In x l ->
+  (depth x <= fold_right (fun x acc => Nat.max (depth x) acc) O l)%nat.
+Proof.
+  induction l as [|y r IH]; simpl; intros x H; [contradiction|].
+  destruct H as [->|H]; [lia|]. specialize (IH x H). lia.
+Qed.
+Lemma depth_fold_le_map : forall (m : list (bytes * value)) kv, In kv m ->
+  (depth (snd kv) <= fold_right (fun kv acc => Nat.max (depth (snd kv)) acc) O m)%nat.
+Proof.
+  induction m as [|y r IH]; simpl; intros x H; [contradiction|].
+  destruct H as [->|H]; [lia|]. specialize (IH x H). lia.
+Qed.
+
+Lemma dec_enc : forall v, wf v = true -> forall fuel, (depth v <= fuel)%nat -> dec_ok_at fuel v.
+Proof.
+  induction v using value_ind'; intros W fuel Hf rest; (destruct fuel as [|f]; [simpl in Hf; lia|]).
+  - reflexivity.
+  - simpl. destruct b; reflexivity.
+  - simpl in W. cbn [enc app dec]. simpl (2 =? 0). simpl (2 =? 1). simpl (2 =? 2). cbv iota.
+    rewrite read32_le32_small by lia. reflexivity.
+  - simpl in W. unfold bytes_ok in W. apply andb_true_iff in W as [_ W].
+    cbn [enc app dec]. simpl (3 =? 0). simpl (3 =? 1). simpl (3 =? 2). simpl (3 =? 3). cbv iota.
+    rewrite <- app_assoc. rewrite readLP_app by lia. reflexivity.
+  - simpl in W. unfold bytes_ok in W. apply andb_true_iff in W as [_ W].
+    cbn [enc app dec]. simpl (4 =? 0). simpl (4 =? 1). simpl (4 =? 2). simpl (4 =? 3). simpl (4 =? 4). cbv iota.
+    rewrite <- app_assoc. rewrite readLP_app by lia. reflexivity.
+  - simpl in W. apply andb_true_iff in W as [W1 W2].
+    cbn [enc app dec]. simpl (5 =? 0). simpl (5 =? 1). simpl (5 =? 2). simpl (5 =? 3). simpl (5 =? 4). simpl (5 =? 5). cbv iota.
+    rewrite <- app_assoc. rewrite read32_le32_small by (pose proof (zlen_nonneg _ l); lia).
+    rewrite dec_items_ok.
+    + reflexivity.
+    + apply Forall_forall. intros x Hx. rewrite Forall_forall in H.
+      apply H; auto.
+      * rewrite forallb_forall in W1. auto.
+      * simpl in Hf. pose proof (depth_fold_le l x Hx). lia.
+    + rewrite app_length. pose proof (flat_map_enc_length l). lia.
+  - destruct (wf_map_parts m W) as [P1 [P2 [P3 P4]]].
+    cbn [enc app dec]. simpl (6 =? 0). simpl (6 =? 1). simpl (6 =? 2). simpl (6 =? 3). simpl (6 =? 4). simpl (6 =? 5). simpl (6 =? 6). cbv iota.
+    rewrite sort_entries_sorted by (rewrite ssorted_map; auto).
+    rewrite flat_map_concat_map, map_map, <- flat_map_concat_map.
+    change (flat_map (fun x : bytes * value => le32 (zlen (fst (fst x, enc (snd x)))) ++ fst (fst x, enc (snd x)) ++ snd (fst x, enc (snd x))) m)
+      with (flat_map entry_bytes m).
+    rewrite <- app_assoc. rewrite read32_le32_small by lia.
+    rewrite (dec_entries_ok f m _ [] rest); auto.
+    + apply Forall_forall. intros kv Hkv. rewrite Forall_forall in H, P2.
+      apply H; auto. simpl in Hf. pose proof (depth_fold_le_map m kv Hkv). lia.
+    + rewrite app_length.
+      assert (length m <= length (flat_map entry_bytes m))%nat.
+      { clear. unfold entry_bytes. induction m as [|kv r IH]; simpl; auto.
+        rewrite !app_length. simpl in *. lia. }
+      lia.
+Qed.
+
+Lemma flat_map_ins_length : forall B (g : bytes * B -> bytes) e l,
+  length (flat_map g (ins_entry e l)) = (length (g e) + length (flat_map g l))%nat.
+Proof.
+  intros B g e l. induction l as [|h t IH]; simpl.
+  - rewrite app_length. reflexivity.
+  - destruct (bytes_ltb (fst e) (fst h)); simpl; rewrite !app_length; [reflexivity|].
+    rewrite IH. lia.
+Qed.
+
+Lemma flat_map_sort_length : forall B (g : bytes * B -> bytes) l,
+  length (flat_map g (sort_entries l)) = length (flat_map g l).
+Proof.
+  intros B g l. induction l as [|e r IH]; simpl; auto.
+  rewrite flat_map_ins_length, app_length, IH. reflexivity.
+Qed.
+
+Lemma depth_le_enc : forall v, (depth v <= length (enc v))%nat.
+Proof.
+  induction v using value_ind'; try (simpl; lia).
+  - cbn [depth enc length]. rewrite app_length.
+    assert (fold_right (fun x acc => Nat.max (depth x) acc) O l <= length (flat_map enc l))%nat.
+    { induction H as [|x r Hx Hr IH]; simpl; auto. rewrite app_length. lia. }
+    lia.
+  - cbn [depth enc length]. rewrite app_length. rewrite flat_map_sort_length.
+    assert (fold_right (fun kv acc => Nat.max (depth (snd kv)) acc) O m <=
+            length (flat_map (fun e : bytes * bytes => le32 (zlen (fst e)) ++ fst e ++ snd e)
+                             (map (fun kv : bytes * value => (fst kv, enc (snd kv))) m)))%nat.
+    { induction H as [|kv r Hx Hr IH]; [simpl; auto|].
+      cbn [fold_right map flat_map fst snd]. rewrite !app_length. lia. }
+    lia.
+Qed.
+
+Lemma packet_roundtrip_all : forall p, wf_packet p = true -> decodePacket (encodeBody p) = DOk p.
+Proof.
+  intros [id isreq v] W. unfold wf_packet in W. simpl in W.
+  apply andb_true_iff in W as [W W3]. apply andb_true_iff in W as [W1 W2].
+  unfold decodePacket, encodeBody. cbn [p_id p_isRequest p_value].
+  rewrite read32_le32_small by (destruct isreq; lia).
+  pose proof (dec_enc v W3 (S (length (enc v)))) as D.
+  specialize (D ltac:(pose proof (depth_le_enc v); lia) []).
+  rewrite app_nil_r in D. rewrite D.
+  f_equal. destruct isreq.
+  - replace (2 * id + 0) with (id * 2) by lia. rewrite Z.div_mul by lia. rewrite Z.mod_mul by lia. reflexivity.
+  - replace ((2 * id + 1) / 2) with id by lia. replace ((2 * id + 1) mod 2) with 1 by lia. reflexivity.
+Qed.
+
+(* runService's framing: the length prefix written by encodePacket delimits the body *)
+Lemma packet_framing_all : forall p rest, zlen (encodeBody p) < 4294967296 ->
+  readLP (encodePacket p ++ rest) = Some (encodeBody p, rest).
+Proof.
+  intros p rest H. unfold encodePacket. cbv zeta. rewrite <- app_assoc. apply readLP_app; auto.
 Qed.
